@@ -121,7 +121,12 @@ def run(ctx):
     cal_names = {b.name for b in cal_fns}
     consts = getattr(f, "consts", {})
     nfields = 0
-    for b in _decoder_bodies(fd, readers):
+    decoders = _decoder_bodies(fd, readers)
+    # which component of what is handed to the calendar validator is which is read off the decoders: the k-th component
+    # is the one computed from the k-th field read from the wire (position in a tuple, name in a struct, place in an
+    # argument list are spellings of that)
+    slots, disagree = _Sites(fd, readers, cal_names).slots(decoders)
+    for b in decoders:
         oc = outcome(b)
         reads = [(c, readers.width(c)) for c in b.calls() if not b.is_cleanup(c.bb) and readers.width(c)]
         two = [c for c, w in reads if w == 2]
@@ -154,6 +159,13 @@ def run(ctx):
         ctx.ob("R-CHK", "%s→from_parts" % _dec_name(fd, b), ok,
                "%s builds the time only through from_parts (calendar validation)" % _dec_name(fd, b), where=b.loc,
                detail=None if ok else K.why(fd, mpp, b.name))
+        bad = [x for x in disagree if x[0] is b]
+        if bad or any(c.is_static and c.res in slots for c in b.calls()):
+            ctx.ob("R-FLOW", "%s:fields-in-wire-order" % _dec_name(fd, b), not bad,
+                   "%s hands the fields to the calendar validator in the same places as the other decoders do "
+                   "(k-th field read → k-th component)" % _dec_name(fd, b), where=b.loc,
+                   detail=[{"callee": short(x[1]), "here": {".".join(map(str, k_)): v_ for k_, v_ in x[2].items()},
+                            "elsewhere": {".".join(map(str, k_)): v_ for k_, v_ in x[3].items()}} for x in bad] or None)
     # the tag match in take_from: any other tag fails
     tfb = fd.body(X + "Time::take_from")
     if tfb is None:
@@ -205,7 +217,7 @@ def run(ctx):
         # Time(<Some-payload of and_hms_opt(<Single-payload of ymd_opt(y, m, d)>, h, m, s)>) of the six parts in order —
         # a payload can only be had on the branch where the variant is the one named
         try:
-            forms = _Canon(fd, fp).success_forms()
+            forms = _Canon(fd, fp, slots.get(fp.name)).success_forms()
         except Exception as e:          # the second reading is optional: the verdict then rests on the first alone
             forms = ["<%s: %s>" % (type(e).__name__, e)]
         okc = bool(forms) and all(any(rx.match(v) for rx in _CALENDAR_FORMS) for v in forms)
@@ -714,18 +726,38 @@ class _Canon:
     and_then with a closure); `#k` is the k-th component of the parts (field k of a tuple parameter, or the k-th of
     several parameters), whatever the parameter is called or however its pattern destructures it."""
 
-    def __init__(self, f, body):
+    def __init__(self, f, body, slots=None):
         self.f = f
         self.root = body
         self.env = [{}]
         self.comps = {}
         n = body.arg_count
         names = [body.local_name(i) or "_%d" % i for i in range(1, n + 1)]
-        if n >= 6:
-            for k, nm in enumerate(names[-6:]):
-                self.comps[("param", nm)] = "#%d" % k
-        self.tuple_param = names[-1] if 1 <= n < 6 else None
+        self.names = names
+        # which component is which: read off the call sites (`slots`: access path -> k, the component that carries the
+        # k-th field read from the wire); only when no call site could be read, by position (six parameters / the
+        # fields of a tuple parameter in order)
+        self.slots = slots
+        self.tuple_param = None
+        if not slots:
+            if n >= 6:
+                for k, nm in enumerate(names[-6:]):
+                    self.comps[("param", nm)] = "#%d" % k
+            self.tuple_param = names[-1] if 1 <= n < 6 else None
         self.in_root = True
+
+    def _slot(self, t):
+        """`#k` if t is the component of the parameters that the callers fill with the k-th field."""
+        if not self.slots or not self.in_root:
+            return None
+        path = []
+        while t[0] == "field" and strip_deep(t[1])[0] != "variant":
+            path.append(str(t[2]))
+            t = strip_deep(t[1])
+        if t[0] != "param" or t[1] not in self.names or ("param", t[1]) in self.env[-1]:
+            return None
+        k = self.slots.get((self.names.index(t[1]),) + tuple(reversed(path)))
+        return None if k is None else "#%d" % k
 
     def success_forms(self):
         out = []
@@ -739,6 +771,10 @@ class _Canon:
         if depth > 30:
             return "…"
         k = t[0]
+        if k in ("param", "field"):
+            v = self._slot(t)
+            if v is not None:
+                return v
         if k in ("param", "upvar"):
             v = self.env[-1].get((k, t[1]))
             if v is not None:
@@ -863,6 +899,134 @@ class _Canon:
                     if vals:
                         return self._inside(cb, m, lambda: " | ".join(sorted({self.payload(v, depth + 1) for v in vals})))
         return "good(%s)" % self.val(t, depth + 1)
+
+
+# ---------------------------------------------------------------------------
+# which component of what the decoders hand to the calendar validator is which
+
+def _ctor_literal(f, t):
+    """A call of a small straight-line constructor of the crate (`TimeParts::new(y, m, ..)`) read as the literal it
+    builds, its parameters replaced by the arguments."""
+    if t[0] != "call" or "{closure" in t[1]:
+        return None
+    cb = f.body(t[1])
+    if cb is None or cb.arg_count != len(t[2]) or len(cb.blocks) > 2 or any(c.is_static for c in cb.calls()):
+        return None
+    sv = success_values(cb)
+    if len(sv) != 1:
+        return None
+    m = {cb.local_name(i + 1) or "_%d" % (i + 1): a for i, a in enumerate(t[2])}
+    return strip_deep(K._subst(strip_deep(sv[0][2]), m))
+
+
+def _is_record(f, t):
+    return t[0] == "agg" and (t[1] in ("tuple", "array", "<updated>") or
+                              (getattr(f, "adts", {}).get(t[1]) or {}).get("kind") == "Struct")
+
+
+def _flatten(f, t, path, out, skip=(), depth=0):
+    """The leaves of a value built from tuples / struct literals / constructors: out[(access path)] = term."""
+    t = strip_deep(t)
+    if depth < 5:
+        lit = _ctor_literal(f, t)
+        if lit is not None:
+            t = lit
+    if _is_record(f, t) and depth < 5:
+        named = [str(fl) for fl, _ in t[3] if fl != ".."]
+        for fl, v in t[3]:
+            if fl == "..":
+                _flatten(f, v, path, out, skip=tuple(named), depth=depth + 1)
+            elif str(fl) not in skip:
+                _flatten(f, v, path + (str(fl),), out, depth=depth + 1)
+        return
+    out.setdefault(path, t)
+
+
+class _Sites:
+    """Every call of a calendar validator in a decoder, on every path that reaches it: the components handed over,
+    each identified by the field read it is computed from, in the order the fields are read from the wire."""
+
+    def __init__(self, f, readers, cal_names):
+        self.f = f
+        self.readers = readers
+        self.cal = set(cal_names)
+        self._memo = {}
+
+    def _read_of(self, x):
+        if x[0] == "call" and x[1] in self.readers.cand:
+            return (x[3] or {}).get("bb")
+        return None
+
+    def width_of(self, x):
+        return self.readers._w(x[1], tuple((x[3] or {}).get("ga") or ())) or _REVIEWED_WIDTH.get(x[1])
+
+    def of(self, b):
+        """[(call, conds, defs, parts)]; parts = [(access path, value, read call term)] in wire order, or None when the
+        six components cannot be told apart.  Raises _Undecided when the paths cannot be enumerated."""
+        if b.name in self._memo:
+            r = self._memo[b.name]
+            if isinstance(r, _Undecided):
+                raise r
+            return r
+        goals = {c.bb: c for c in b.calls() if not b.is_cleanup(c.bb) and c.is_static and c.res in self.cal}
+        try:
+            ps = _order_paths(b, goals=set(goals), max_paths=4000) if goals else []
+        except _Undecided as e:
+            self._memo[b.name] = e
+            raise
+        consts = getattr(self.f, "consts", {})
+        reach = {}
+        out = []
+        for conds, defs in ps:
+            c = goals[defs["@"]]
+            leaves = {}
+            for i, a in enumerate(K.arg_terms(c)):
+                _flatten(self.f, K.fold_consts(_resolve(a, defs), consts), (i,), leaves)
+            comps = []
+            ok = True
+            for path, v in leaves.items():
+                rd = {}
+                for x in walk(v):
+                    bb = self._read_of(x)
+                    if bb is not None:
+                        rd[bb] = x
+                if len(rd) > 1:
+                    ok = False
+                elif rd:
+                    bb, x = next(iter(rd.items()))
+                    comps.append((path, v, x, bb))
+            bbs = [x[3] for x in comps]
+            if not ok or len(comps) != 6 or len(set(bbs)) != 6:
+                out.append((c, conds, defs, None))
+                continue
+            for bb in bbs:
+                if bb not in reach:
+                    reach[bb] = set(b.reachable(bb)) - {bb}
+            comps.sort(key=lambda x: -sum(1 for o in bbs if o in reach[x[3]]))
+            total = all(comps[j][3] in reach[comps[i][3]] and comps[i][3] not in reach[comps[j][3]]
+                        for i in range(6) for j in range(i + 1, 6))
+            out.append((c, conds, defs, [x[:3] for x in comps] if total else None))
+        self._memo[b.name] = out
+        return out
+
+    def slots(self, bodies):
+        """{calendar validator: {access path: k}} agreed by all call sites that can be read, and the sites that
+        disagree with the first one: [(decoder, callee, its map, the reference map)]."""
+        ref, bad = {}, []
+        for b in bodies:
+            try:
+                sites = self.of(b)
+            except _Undecided:
+                continue
+            for c, _, _, parts in sites:
+                if parts is None:
+                    continue
+                m = {path: k for k, (path, _, _) in enumerate(parts)}
+                if c.res not in ref:
+                    ref[c.res] = m
+                elif ref[c.res] != m and not any(x[0] is b and x[1] == c.res for x in bad):
+                    bad.append((b, c.res, m, ref[c.res]))
+        return ref, bad
 
 
 # ---------------------------------------------------------------------------
@@ -1604,32 +1768,41 @@ def _pivot_decided(f, b, readers, cal_names):
     after_four = set()
     for bb in four:
         after_four |= set(b.reachable(bb))
-    goals = {c.bb: c for c in b.calls() if not b.is_cleanup(c.bb) and c.is_static and c.res in cal_names and c.bb not in after_four}
-    if not goals:
-        return False, False, "no UTCTime arm"
+    sites = _Sites(f, readers, cal_names)
     try:
-        ps = _order_paths(b, goals=set(goals), max_paths=4000)
+        ss = sites.of(b)
     except _Undecided as e:
         return True, False, "not decided: %s" % e
-    if not ps:
-        return True, False, "the calendar validator is not reached"
 
     def first_read(t):
         x = _peel_payload(t)
         if x[0] != "call" or x[1] not in readers.cand:
             return None
-        w = readers._w(x[1], tuple((x[3] or {}).get("ga") or ())) or _REVIEWED_WIDTH.get(x[1])
-        return x if w == 2 else None
-    seen = [0] * 100
-    for conds, defs in ps:
-        c = goals[defs["@"]]
+        return x if sites.width_of(x) == 2 else None
+    # the UTCTime arm(s): where the first field read from the wire has two digits.  The year is the component computed
+    # from that field — whichever position or name it has in what is handed over (a tuple, a struct, six arguments)
+    ps = []
+    for c, conds, defs, parts in ss:
+        if parts is not None:
+            if sites.width_of(parts[0][2]) == 2:
+                ps.append((c, conds, defs, parts[0][1]))
+            continue
+        if c.bb in after_four:
+            continue
         args = [K.fold_consts(_resolve(a, defs), consts) for a in K.arg_terms(c)]
         if len(args) == 1 and args[0][0] == "agg" and args[0][1] == "tuple" and len(args[0][3]) == 6:
-            year = args[0][3][0][1]
+            ps.append((c, conds, defs, args[0][3][0][1]))
         elif len(args) == 6:
-            year = args[0]
+            ps.append((c, conds, defs, args[0]))
         else:
             return True, False, "cannot see the year handed to %s: %s" % (short(c.res), render(args[0])[:160] if args else "")
+    if not ps:
+        cand = [c for c in b.calls() if not b.is_cleanup(c.bb) and c.is_static and c.res in cal_names and c.bb not in after_four]
+        if cand and not any(c2 is c for c in cand for c2, _, _, _ in ss):
+            return True, False, "the calendar validator is not reached"
+        return False, False, "no UTCTime arm"
+    seen = [0] * 100
+    for c, conds, defs, year in ps:
         srcs = {(x[3] or {}).get("bb") for x in (first_read(y) for y in walk(year)) if x is not None}
         if len(srcs) != 1:
             return True, False, "the year is not a function of one two-digit field: %s" % render(year)[:160]
